@@ -318,6 +318,16 @@ def mutation_of(fn):
         return nm in ARRAYISH or any(k in a for k in ('ndarray', 'List', 'Sequence', 'Dict', 'Iterable', 'DicomType',
                                                       'BoxType', 'KeypointType')) and 'int' not in a.split('[')[0]
     flagged = []
+    array_alias = set()      # names bound to an ndarray view / alias of a borrowed value (np.asarray(x), x.reshape(..), ...)
+
+    def is_array_alias_call(v):
+        if isinstance(v, ast.Call):
+            f = v.func
+            nm = f.attr if isinstance(f, ast.Attribute) else (f.id if isinstance(f, ast.Name) else '')
+            return nm in ('ascontiguousarray', 'asarray', 'asanyarray', 'reshape', 'squeeze', 'transpose', 'ravel', 'view',
+                          'swapaxes', 'expand_dims', 'require', 'atleast_1d', 'atleast_2d', 'atleast_3d', 'moveaxis', 'flip',
+                          'flipud', 'fliplr', 'rot90', 'broadcast_to')
+        return False
 
     def is_fresh(v):
         if isinstance(v, ast.Call):
@@ -358,10 +368,14 @@ def mutation_of(fn):
                     if isinstance(tg, ast.Name):
                         if fresh:
                             borrowed.discard(tg.id)
+                            array_alias.discard(tg.id)
                         elif src in borrowed:
                             borrowed.add(tg.id)
+                            if is_array_alias_call(st.value):
+                                array_alias.add(tg.id)
                         else:
                             borrowed.discard(tg.id)
+                            array_alias.discard(tg.id)
                     elif isinstance(tg, (ast.Tuple, ast.List)):
                         for e in tg.elts:
                             if isinstance(e, ast.Name):
@@ -376,7 +390,7 @@ def mutation_of(fn):
             elif isinstance(st, ast.AugAssign):
                 b = base_name(st.target)
                 # `x op= e` on a bare name rebinds immutable scalars; it writes in place only for arrays/lists
-                if isinstance(st.target, ast.Name) and not mutable_name(b):
+                if isinstance(st.target, ast.Name) and not (mutable_name(b) or b in array_alias):
                     b = None
                 if b in borrowed and b != 'self':
                     flagged.append('%s: in-place operator on %s (line %d)' % (fn.name, b, st.lineno))
